@@ -81,6 +81,8 @@ func main() {
 		}
 	case "selftest-determinism":
 		os.Exit(selftestDeterminism(os.Args[2:]))
+	case "manifest":
+		writeManifest()
 	case "list":
 		for _, id := range propOrder() {
 			p := props[id]
